@@ -241,10 +241,12 @@ def settings_for(draw, algo: str, space, with_seed: bool = True):
 def cases(draw, routes):
     algo = draw(st.sampled_from(ALGOS))
     space = draw(spaces(max_dim=MAX_DIM.get(algo, 5)))
-    return {
-        "algo": algo, "space": space, "settings": draw(settings_for(algo, space)),
-        "route": draw(st.sampled_from(routes)), "rng": draw(st.integers(0, 2**31 - 1)),
-    }
+    settings = draw(settings_for(algo, space))
+    route = draw(st.sampled_from(routes))
+    if route.startswith("exec") and draw(st.integers(0, 9)) == 0:
+        # a documented DOE setting: the functions then take normalised inputs, the samples stay physical
+        settings["normalize_design_space"] = draw(st.sampled_from([True, True, False]))
+    return {"algo": algo, "space": space, "settings": settings, "route": route, "rng": draw(st.integers(0, 2**31 - 1))}
 
 
 @st.composite
@@ -523,6 +525,8 @@ def classify(p, ctx, oracle: str):
         ctx.cls("component_with_lb==ub")
     seeded = any(k in p["settings"] for k in ("seed", "random_state"))
     ctx.cls("explicit_seed" if seeded else "default_seed")
+    if p["settings"].get("normalize_design_space"):
+        ctx.cls("normalize_design_space")
     if "_custom" in p["settings"]:
         names = [v["name"] for v in p["space"]]
         ctx.cls(f"custom:{p['settings']['_custom']['form']}" + ("" if names == sorted(names) else ":names_not_in_alphabetical_order"))
@@ -540,7 +544,9 @@ def same_rows(a: np.ndarray, b: np.ndarray) -> bool:
 def excluded(p, ctx) -> bool:
     """Input classes of open ledger entries."""
     custom = p["settings"].get("_custom")
-    return bool(custom and custom["form"] == "dict" and len(p["space"]) >= 2 and ctx.known("custom_dict_of_2d_arrays_multi_variable"))
+    if custom and custom["form"] == "dict" and len(p["space"]) >= 2 and ctx.known("custom_dict_of_2d_arrays_multi_variable"):
+        return True
+    return bool(p["settings"].get("normalize_design_space") and p["route"].startswith("exec") and ctx.known("doe_execute_with_normalized_design_space"))
 
 
 def case_compute(p, ctx):
